@@ -1,6 +1,8 @@
 package verifsim
 
 import (
+	"context"
+	"errors"
 	"fmt"
 	"io"
 	"math/rand/v2"
@@ -607,7 +609,7 @@ func execC11(e *Env, pp any) {
 		}
 		if err != nil {
 			if c.Timeout != 0 {
-				if st, isSt := status.FromError(err); isSt && st.Code() == codes.DeadlineExceeded {
+				if st, isSt := status.FromError(err); (isSt && st.Code() == codes.DeadlineExceeded) || errors.Is(err, context.DeadlineExceeded) {
 					e.Note("deadline.answered")
 					continue
 				}
